@@ -173,7 +173,16 @@ def _pchip_derivatives(
     h_l, h_r = h[:-1], h[1:]
 
     mask_same_sign = (delta_l * delta_r) > 0  # excludes zeros + sign changes
-    dh = _weighted_harmonic_mean(delta_l, delta_r, h_l, h_r)
+    # Evaluate the harmonic mean on safe operands only: torch.where back-propagates
+    # through both branches, so a zero secant (flat data) in the discarded branch
+    # would turn the gradients into NaN.
+    ones = torch.ones_like(delta_l)
+    dh = _weighted_harmonic_mean(
+        torch.where(mask_same_sign, delta_l, ones),
+        torch.where(mask_same_sign, delta_r, ones),
+        h_l,
+        h_r,
+    )
     d[1:-1] = torch.where(mask_same_sign, dh, torch.zeros_like(dh))
 
     # Endpoints (one-sided + limiter)
